@@ -181,8 +181,11 @@ func ValidateDecryptionKeysSignatures(
 	keyperSet *obskeyperdatabase.KeyperSet,
 ) (pubsub.ValidationResult, error) {
 	// Allow for empty signatures and signer indices
-	if len(extra.SignerIndices) == 0 || len(extra.Signature) == 0 {
+	if len(extra.SignerIndices) == 0 && len(extra.Signature) == 0 {
 		return pubsub.ValidationAccept, nil
+	}
+	if len(extra.Signature) != len(extra.SignerIndices) {
+		return pubsub.ValidationReject, errors.Errorf("expected %d signatures, got %d", len(extra.SignerIndices), len(extra.Signature))
 	}
 
 	if int32(len(extra.SignerIndices)) != keyperSet.Threshold {
